@@ -15,6 +15,8 @@
 From Verif Require Import Base.Bytestr Front.Ast Back.BashLines Back.Transpile Back.BashConv Sem.BashSem Sem.Words.
 Open Scope N_scope.
 
+From Verif Require Import Facts.C08Facts.
+
 Theorem C08_value_in_word : forall e l,
   forallb atom_ok l = true -> dq e (concat (map render_atom l)) = Some (concat (map (atom_text e) l)).
 Proof. exact dq_word. Qed.
@@ -24,15 +26,15 @@ Theorem C08_eval_once : forall e a r,
   atom_ok a = true ->
   dq_go e (bq ++ defer_exp (render_atom a) ++ bq ++ r) DPlain = option_map (app (q ++ render_atom a ++ q)) (dq_go e r DPlain)
   /\ dq e (render_atom a) = Some (atom_text e a).
-Proof. intros e a r H. split; [exact (dq_eval_quoted e a r H)|exact (eval_scans_once e a H)]. Qed.
+Proof. exact C08_eval_once_proof. Qed.
 Print Assumptions C08_eval_once.
 
 Theorem C08_literal_spliced : forall t used s, t_expr bash_conv (EStr t) used s = TOk [ALit t] s.
-Proof. reflexivity. Qed.
+Proof. exact C08_literal_spliced_proof. Qed.
 Print Assumptions C08_literal_spliced.
 
 Theorem C08_neutral_literal : forall e t, neutral t = true -> dq e t = Some t.
-Proof. intros e t H. unfold dq. rewrite <- (app_nil_r t). rewrite (dq_neutral e t [] H). simpl. rewrite app_nil_r. reflexivity. Qed.
+Proof. exact C08_neutral_literal_proof. Qed.
 Print Assumptions C08_neutral_literal.
 
 Theorem C08_literal_refuted :
